@@ -1057,6 +1057,16 @@ func (fv *FuncVerifier) bind(id *ast.Ident, v Term, st *State) {
 		reject("unresolved identifier %s", id.Name)
 	}
 	if v.Sort == nil {
+		// an unmodelled value (e.g. a result the callee's contract gives no model for) bound to a
+		// variable whose own type has a model: the variable holds an arbitrary well-typed value
+		if vr, ok := obj.(*types.Var); ok {
+			if srt := fv.sortOf(vr.Type()); srt != nil {
+				t := fv.u.freshConst(id.Name, srt)
+				fv.assumeTyped(st, t, vr.Type())
+				st.vars[obj] = t
+				return
+			}
+		}
 		delete(st.vars, obj)
 		return
 	}
